@@ -21,7 +21,7 @@ a list of lines that is empty is written `E`; `N` stands for Python's `None`.
   → `range=<a,b,…> spec=<a,b,…> D=<stmtRangeOverrun | ->`
 
 `X|<lines>|<first>|<stmtEnd>|<adds>|<sharesLine><soleInBlock><isElif><pctRisky><decorated><hasWalrus><pctTail><pctZero><inJoinedStr>`   (nine 0/1 digits)
-  → `D=<classes | ->`   (stmtRangeOverrun, sharedLine, emptyBlock, elifHeader, fstringZeroPrecision, missingFInFstring, fstringConversion, decoratedStmt)
+  → `D=<classes | ->`   (stmtRangeOverrun, sharedLine, emptyBlock, elifHeader, fstringConversion, decoratedStmt)
 
 `G|<targets>|<valueBinds>|<u>`   the removal guard of `_check_function_unused_vars` (regenerated `Gen.removalGuard`)
   targets: `K` then K targets, target: `n NAME` | `t K` targets | `l K` targets | `s` target | `o KIND`;
@@ -322,7 +322,6 @@ def handle (line : String) : String :=
                             decorated := g == '1', hasWalrus := w == '1', pctTail := pt == '1', pctZero := pz == '1', inJoinedStr := ij == '1' }
       let d := classes [(D16_stmtRangeOverrun ls first stmtEnd, "stmtRangeOverrun"), (D16_sharedLine fc, "sharedLine"),
                         (D16_emptyBlock fc, "emptyBlock"), (D16_elifHeader fc, "elifHeader"),
-                        (D16_fstringZeroPrecision fc, "fstringZeroPrecision"), (D16_missingFInFstring fc, "missingFInFstring"),
                         (D16_fstringConversion fc, "fstringConversion"), (D16_decoratedStmt fc, "decoratedStmt")]
       s!"D={d}"
     | _, _, _, _, _ => "bad-op"
